@@ -186,3 +186,5 @@ INFO = dict(
     outside=["strings longer than the bound", "automata outside the catalogue's sub-shape lattices"],
     assumptions=["weights >= 0", "epsilon-cycle series converge (pivots > 0)"],
 )
+
+INFO["technique"] = 'symbolic execution of WFSA evaluation / epsremove / total_weight with z3 real weights and with non-commutative 2x2 matrix weights; support for all strings <= L via a z3 symbolic string; bounded'
